@@ -170,7 +170,7 @@ def validate(ctx, trace, b, label):
                 head.append(json.loads(line))
             elif not state.get("chol") and '"routine":"cholesky"' in line:
                 e = json.loads(line)
-                if e["outcome"] == "ok" and e["fxok"] and e["gen"]["n"] == 3 and e["gen"]["k"] == 0:
+                if e["outcome"] == "ok" and e["fxok"] and e["gen"]["cls"] == "spd" and e["gen"]["n"] == 3 and e["gen"]["k"] == 0:
                     state["chol"] = True
                     head.append(e)
             lines.append(line)
@@ -226,7 +226,7 @@ def selftest(ctx, events, b):
     """binding: a flipped fine boolean, a perturbed factor entry and a foreign input must all be noticed"""
     base = None
     for e in events:
-        if e["routine"] == "cholesky" and e["outcome"] == "ok" and e["fxok"] and e["gen"]["n"] == 3 and e["gen"]["k"] == 0:
+        if e["routine"] == "cholesky" and e["outcome"] == "ok" and e["fxok"] and e["gen"]["cls"] == "spd" and e["gen"]["n"] == 3 and e["gen"]["k"] == 0:
             base = e
             break
     if base is None:
